@@ -114,6 +114,24 @@ def walk_no_nested(node):
         todo.extend(ast.iter_child_nodes(n))
 
 
+def seq(root) -> dict:
+    """id(node) -> position in program order (depth-first, fields in source order).  Used instead of line numbers:
+    nodes inlined by the normaliser keep the line numbers of the helper they came from."""
+    out = {}
+    n = 0
+    stack = [root]
+    while stack:
+        x = stack.pop()
+        out[id(x)] = n
+        n += 1
+        stack.extend(reversed(list(ast.iter_child_nodes(x))))
+    return out
+
+
+def inside(node, container) -> bool:
+    return any(n is node for n in ast.walk(container))
+
+
 def names_loaded(node) -> set:
     return {n.id for n in ast.walk(node) if isinstance(n, ast.Name) and isinstance(n.ctx, ast.Load)}
 
